@@ -325,7 +325,7 @@ func registerIntrinsics(e *Engine) {
 					return tTrue, true
 				}
 			}
-			m := p.eng.prog.LookupMethod(err.t, nil, "Unwrap")
+			m := p.findMethod(err.t, "Unwrap")
 			if m == nil {
 				return tFalse, true
 			}
@@ -427,6 +427,27 @@ func registerIntrinsics(e *Engine) {
 		sb := p.tc.Eq(p.tc.Extract(bits, 63, 63), Const(BV(1), 1))
 		p.assume(p.tc.Eq(sb, neg))
 		return tuple{f, tTrue}, true
+	}
+
+	// ---- golang.org/x/text (locale printing): opaque ----
+	in["golang.org/x/text/language.MustParse"] = func(p *Path, _ *frame, fn *ssa.Function, a []value) (value, bool) {
+		p.stub("golang.org/x/text/language.MustParse")
+		if s, ok := cstr(a[0]); ok {
+			if _, err := xlanguageParse(s); err != nil {
+				panic(targetPanic{goErr(p, "language: tag is not well-formed")})
+			}
+		} else if p.branch(p.tc.Var(SBool, "language.MustParse.fails")) {
+			panic(targetPanic{goErr(p, "language: tag is not well-formed")})
+		}
+		return zero(fn.Signature.Results().At(0).Type()), true
+	}
+	in["golang.org/x/text/message.NewPrinter"] = func(p *Path, _ *frame, fn *ssa.Function, a []value) (value, bool) {
+		p.stub("golang.org/x/text/message.NewPrinter")
+		return (*value)(nil), true
+	}
+	in["(*golang.org/x/text/message.Printer).Sprintf"] = func(p *Path, _ *frame, fn *ssa.Function, a []value) (value, bool) {
+		p.stub("golang.org/x/text/message.Printer.Sprintf")
+		return "<locale-formatted>", true
 	}
 
 	// ---- regexp / reflect ----
@@ -592,7 +613,7 @@ func (p *Path) toGoTyped(t types.Type, v value) (interface{}, bool) {
 	}
 	// errors / Stringers: try Error() / String() methods when concrete
 	for _, mname := range []string{"Error", "String"} {
-		if m := p.eng.prog.LookupMethod(t, nil, mname); m != nil && m.Signature.Params().Len() == 0 && m.Signature.Results().Len() == 1 && isString(m.Signature.Results().At(0).Type()) {
+		if m := p.findMethod(t, mname); m != nil && m.Signature.Params().Len() == 0 && m.Signature.Results().Len() == 1 && isString(m.Signature.Results().At(0).Type()) {
 			if p.fmtDepth > 2 {
 				return "<nested>", true
 			}
@@ -797,6 +818,21 @@ func registerVerifPrims(in map[string]intrinsic, pkg string) {
 			return Bool(x == nil), true
 		}
 		return tFalse, true
+	}
+	// verifOnce(key, f): f is a concrete prologue computing a string; it is
+	// executed once per engine run and the result shared by all paths.
+	in[pkg+".verifOnce"] = func(p *Path, caller *frame, _ *ssa.Function, a []value) (value, bool) {
+		key, _ := cstr(a[0])
+		if v, ok := p.eng.once.Load(key); ok {
+			return v.(string), true
+		}
+		r := p.call(caller, a[1], nil, nil)
+		s, ok := r.(string)
+		if !ok {
+			p.unsupported("verifOnce prologue returned a symbolic string")
+		}
+		p.eng.once.Store(key, s)
+		return s, true
 	}
 	in[pkg+".verifLog"] = func(p *Path, _ *frame, _ *ssa.Function, a []value) (value, bool) { return nil, true }
 	in[pkg+".verifIsSymbolic"] = func(p *Path, _ *frame, _ *ssa.Function, a []value) (value, bool) { return tTrue, true }
@@ -1031,6 +1067,33 @@ func registerRegexp(in map[string]intrinsic) {
 		p.unsupported("(*regexp.Regexp).ReplaceAllString on symbolic data")
 		return nil, true
 	}
+	in["(*regexp.Regexp).ReplaceAllFunc"] = func(p *Path, caller *frame, _ *ssa.Function, a []value) (value, bool) {
+		r := re(p, a[0])
+		src := a[1].([]value)
+		if r != nil {
+			if out, ok := p.replaceAllFuncSingle(caller, r, src, a[2]); ok {
+				return out, true
+			}
+		}
+		p.unsupported("(*regexp.Regexp).ReplaceAllFunc for this pattern")
+		return nil, true
+	}
+	in["(*regexp.Regexp).FindStringSubmatch"] = func(p *Path, _ *frame, _ *ssa.Function, a []value) (value, bool) {
+		r := re(p, a[0])
+		if s, ok := cstr(a[1]); ok && r != nil {
+			m := r.FindStringSubmatch(s)
+			if m == nil {
+				return []value(nil), true
+			}
+			out := make([]value, len(m))
+			for i, x := range m {
+				out[i] = x
+			}
+			return out, true
+		}
+		p.unsupported("FindStringSubmatch on symbolic data")
+		return nil, true
+	}
 	in["(*regexp.Regexp).FindStringIndex"] = func(p *Path, _ *frame, _ *ssa.Function, a []value) (value, bool) {
 		r := re(p, a[0])
 		if s, ok := cstr(a[1]); ok && r != nil {
@@ -1111,4 +1174,27 @@ func (p *Path) nextConcrete() (uint64, bool) {
 		return p.eng.cfg.Vector[i], true
 	}
 	return 0, true
+}
+
+// findMethod returns the exported method name of t, or nil.
+func (p *Path) findMethod(t types.Type, name string) *ssa.Function {
+	sel := p.eng.prog.MethodSets.MethodSet(t).Lookup(nil, name)
+	if sel == nil {
+		return nil
+	}
+	return p.eng.prog.MethodValue(sel)
+}
+
+// xlanguageParse: a rough well-formedness test for BCP 47 tags standing in for
+// golang.org/x/text/language (not vendored into the engine).
+func xlanguageParse(s string) (string, error) {
+	if s == "" {
+		return "", fmt.Errorf("empty")
+	}
+	for _, c := range s {
+		if !(c == '-' || c == '_' || 'a' <= c && c <= 'z' || 'A' <= c && c <= 'Z' || '0' <= c && c <= '9') {
+			return "", fmt.Errorf("bad")
+		}
+	}
+	return s, nil
 }
